@@ -61,7 +61,17 @@ def rule_ckpt(ctx: Ctx) -> None:
                   f'{f.name} reaches {callee}() under {ats}: with a checkpoint directory the per-layer files are the only copy of the factors, '
                   f'so the call must depend on factor_checkpoint_dir alone (extra conditions: {extra})', cs[0])
     # ---- save side
-    apps = [n for n in p.nodes(sd) if isinstance(n, ast.Call) and isinstance(n.func, ast.Attribute) and n.func.attr == 'append' and norm(n.func.value) == 'partition']
+    # the contribution of this rank: the local list handed to all_gather_object (whatever it is called)
+    gat = [n for n in p.nodes(sd) if isinstance(n, ast.Call) and norm(n.func).endswith('all_gather_object')]
+    contrib = gat[0].args[1].id if len(gat) == 1 and len(gat[0].args) >= 2 and isinstance(gat[0].args[1], ast.Name) else 'partition'
+    cinit = [n for n in p.nodes(sd) if isinstance(n, ast.Assign) and norm(n.targets[0]) == contrib]
+    apps = [n for n in p.nodes(sd) if isinstance(n, ast.Call) and isinstance(n.func, ast.Attribute) and n.func.attr == 'append' and norm(n.func.value) == contrib]
+    other_writes = [n for n in p.nodes(sd) if (isinstance(n, ast.Call) and isinstance(n.func, ast.Attribute) and norm(n.func.value) == contrib and n.func.attr in ('extend', 'insert', 'pop', 'remove', 'clear', 'sort', 'reverse'))
+                    or (isinstance(n, (ast.Assign, ast.AugAssign, ast.Delete)) and any(isinstance(t, ast.Subscript) and norm(t.value) == contrib for t in (n.targets if not isinstance(n, ast.AugAssign) else [n.target])))
+                    or (isinstance(n, ast.AugAssign) and norm(n.target) == contrib)]
+    ctx.check(len(cinit) == 1 and norm(cinit[0].value) in ('[]', 'list()') and not other_writes, 'COH-SAVEGUARD', sd, f'state_dict: the contribution {contrib} starts empty and only grows by append', contrib,
+              f'state_dict: the list handed to all_gather_object ({contrib}) is initialised by {[norm(n.value)[:60] for n in cinit]} and also changed by {[norm(n)[:60] for n in other_writes]}; it must start empty and receive only the inverse worker\'s appends',
+              cinit[0] if cinit else sd.node)
     for a in apps:
         at = _atoms(p, sd, a)
         ok = any(x in inv_guard and pol for x, pol, via in at) and re.sub(r'\s+', '', norm(a.args[0])) == '(name,layer_state_dict)'
@@ -124,7 +134,7 @@ def rule_ckpt(ctx: Ctx) -> None:
     ok1 = any(t == 'state_dict=super().state_dict(include_factors=False)' for t in txt)
     ctx.check(ok1, 'TAB-GATHER', sd, 'scalar state from the base class', 'base state', 'state_dict does not start from super().state_dict(include_factors=False)', sd.node)
     gathers = [n for n in p.nodes(sd) if isinstance(n, ast.Call) and norm(n.func).endswith('all_gather_object')]
-    okg = len(gathers) == 1 and len(gathers[0].args) >= 2 and re.sub(r'\s+', '', norm(gathers[0].args[1])) == 'partition'
+    okg = len(gathers) == 1 and len(gathers[0].args) >= 2 and isinstance(gathers[0].args[1], ast.Name) and gathers[0].args[1].id == contrib and bool(apps)
     ctx.check(okg, 'TAB-GATHER', sd, 'all ranks gather every partition', 'all_gather_object', f'state_dict gathers with {[norm(g)[:80] for g in gathers]}', sd.node)
     recv = norm(gathers[0].args[0]) if gathers and gathers[0].args else 'partitions'
     size = [n.value for n in p.nodes(sd) if isinstance(n, ast.Assign) and norm(n.targets[0]) == recv]
